@@ -21,7 +21,7 @@ CFG = hprop.HistoryProperty(
     ],
     quick=(16, 100, 35), thorough=(16, 600, 50), probes=True,
     # bias towards contention: send vehicles to stations/bases (preferably full ones), pull them out again
-    instr_bias={"rush": True, "kinds": [2, 2, 2, 2, 3, 3, 4, 4, 5, 6, 6, 0, 0, 1, 7, 8], "tclasses": [0, 1, 1, 3, 3, 3, 2, 4, 6]},
+    instr_bias={"rush": True, "raw": True, "raw_kinds": [1, 1, 1, 3, 4, 0, 2, 5], "raw_tclasses": [0, 1, 1, 2, 3, 3], "kinds": [2, 2, 2, 2, 3, 3, 4, 4, 5, 6, 6, 0, 0, 1, 7, 8], "tclasses": [0, 1, 1, 3, 3, 3, 2, 4, 6]},
 )
 RULE, ASSUMPTIONS = CFG.rule, CFG.assumptions
 FLOORS = {"quick": {"flag:arrival_at_full_station": 5, "flag:exit_resource_by_instruction": 20}, "thorough": {"flag:arrival_at_full_station": 50}}
